@@ -553,6 +553,22 @@ func c14Gov(spec c14Spec, res *core.CaseResult, verbose bool) {
 		res.Violate(fmt.Sprintf("C14/migrated-while-%s-of-open-proposal/%s", spec.Role, strings.SplitN(spec.Phase, "-", 2)[0]),
 			"migration succeeded although the %s is %s of proposal %d, which is in its %s (%s)", spec.Who, spec.Role, id, p.Status, spec.Phase)
 	}
+	// the same after governance has shortened the periods: the open proposal keeps the end it was given
+	{
+		b := c.Branch()
+		gp, _ := c.App.GovKeeper.Params.Get(b)
+		vp, dp, ep := 48*time.Hour, 24*time.Hour, 12*time.Hour
+		gp.VotingPeriod, gp.MaxDepositPeriod, gp.ExpeditedVotingPeriod = &vp, &dp, &ep
+		if ur := c.MsgOn(b, &govv1.MsgUpdateParams{Authority: chain.GovAuthority(), Params: gp}); ur.OK() {
+			res.Count("gov_refusal_checks_after_period_change", 1)
+			if r2 := w.migrate(b); r2.OK() {
+				res.Violate(fmt.Sprintf("C14/migrated-while-%s-of-open-proposal/%s/after-period-change", spec.Role, strings.SplitN(spec.Phase, "-", 2)[0]),
+					"migration succeeded although the %s is %s of proposal %d, which is in its %s (%s); governance had shortened the voting and deposit periods meanwhile", spec.Who, spec.Role, id, p.Status, spec.Phase)
+			}
+		} else if verbose {
+			fmt.Println("period change refused:", ur.ErrString())
+		}
+	}
 	// positive control: once the proposal is over, migration works
 	for _, v := range c.Vals {
 		fix.GovVote(c, v.Operator, id, govv1.OptionNo)
